@@ -48,6 +48,11 @@ type MetadataValidator<M> = dyn Fn(&Path, &M) -> Result<()> + Send + Sync;
 
 /// Wrapper-supplied policy for interpreting sidecar metadata in listings.
 ///
+/// Upper bound on how many times a read re-resolves a stale payload pointer
+/// (see [`SidecarStore::pointer_moved`]). Each retry requires a further
+/// committed overwrite of the same key while the read is in flight.
+pub(crate) const MAX_STALE_POINTER_RETRIES: u32 = 16;
+
 /// `validator` lets wrappers authenticate a decoded metadata document before
 /// it is surfaced. `reject_corrupt` distinguishes strict mode (a present but
 /// undecodable document fails the listing) from compatibility mode (the entry
@@ -393,6 +398,32 @@ impl<T: ObjectStore, M: SidecarMeta> SidecarStore<T, M> {
             })
             .await?;
         Ok(rt.unwrap().value().clone())
+    }
+
+    /// Re-resolves `location` after a payload read missed the object that
+    /// `missed` (the generation pointer the read had resolved) names, and
+    /// reports whether the read should be retried.
+    ///
+    /// A miss means the pointer was stale: a concurrent overwrite committed a
+    /// new generation and reclaimed the old one (or migrated a legacy
+    /// payload). One overwrite is not the limit, though — a slow read can be
+    /// overtaken by several, each reclaiming the generation the previous
+    /// re-resolution found — so the read keeps following the commit point for
+    /// as long as it moved, up to [`MAX_STALE_POINTER_RETRIES`]. When the
+    /// fresh pointer still names the payload that is missing, the object is
+    /// genuinely gone and the caller reports `NotFound`.
+    pub(crate) async fn pointer_moved(
+        &self,
+        location: &Path,
+        missed: Option<&str>,
+        retries: &mut u32,
+    ) -> Result<bool> {
+        if *retries >= MAX_STALE_POINTER_RETRIES {
+            return Ok(false);
+        }
+        *retries += 1;
+        let fresh = self.refresh_meta(location).await?;
+        Ok(fresh.generation() != missed)
     }
 
     /// Atomically (per key) computes and commits a new metadata document —
@@ -753,7 +784,7 @@ impl<T: ObjectStore, M: SidecarMeta> SidecarStore<T, M> {
     where
         F: Fn(&Path, &M) -> Result<()>,
     {
-        let mut retried = false;
+        let mut retries = 0;
         loop {
             let src = self.get_meta(from).await?;
             verify(from, &src)?;
@@ -774,10 +805,12 @@ impl<T: ObjectStore, M: SidecarMeta> SidecarStore<T, M> {
                     // The cached source pointer — generational or legacy —
                     // may be stale after a concurrent overwrite: the
                     // generation was replaced and reclaimed, or the legacy
-                    // payload was migrated away. Re-resolve once.
-                    if !retried {
-                        retried = true;
-                        self.refresh_meta(from).await?;
+                    // payload was migrated away. Re-resolve and follow the
+                    // commit point while it keeps moving.
+                    if self
+                        .pointer_moved(from, src.generation(), &mut retries)
+                        .await?
+                    {
                         continue;
                     }
                     return Err(Error::NotFound {
